@@ -216,6 +216,8 @@ class SrvAdapter:
 
     # ------------------------------------------------------------ handlers
     def _name(self, sid):
+        if not isinstance(sid, str):
+            return '?' + repr(sid)[:20]     # not a session id at all
         if sid not in self.names:
             n = 's%d' % (len(self.names) + 1)
             self.names[sid] = n
